@@ -815,7 +815,13 @@ class Polyhedron(Shape3D):
 
         """
         principal_moments, principal_axes = np.linalg.eigh(self.inertia_tensor)
+        # The eigenvectors are only defined up to sign: make this a proper rotation
+        # so that the shape is reoriented, never mirrored.
+        if np.linalg.det(principal_axes) < 0:
+            principal_axes[:, 0] *= -1
         self._vertices = np.dot(self._vertices, principal_axes)
+        # The face normals rotate with the vertices.
+        self._find_equations()
 
     def compute_form_factor_amplitude(self, q, density=1.0):  # noqa: D102
         """Calculate the form factor intensity.
